@@ -63,6 +63,23 @@ impl<'a> KmerMinimiserGenerator<'a> {
             k_shift: 2 * (wsize - 1) as u64,
         }
     }
+
+    /// (pos, m_val_l, buff, buff_pos, m_active, m_window_start, k_val_l, k_val_f, k_val_r) - read-only view of the iterator state
+    #[cfg(feature = "verif_hooks")]
+    #[allow(clippy::type_complexity)]
+    pub fn verif_state(&self) -> (usize, usize, Vec<u64>, usize, u64, usize, usize, u64, u64) {
+        (
+            self.pos,
+            self.m_val_l,
+            self.buff.iter().copied().collect(),
+            self.buff_pos,
+            self.m_active,
+            self.m_window_start,
+            self.k_val_l,
+            self.k_val_f,
+            self.k_val_r,
+        )
+    }
 }
 
 // technique adopted from https://github.com/lh3/minimap2/blob/0cc3cdca27f050fb80a19c90d25ecc6ab0b0907b/sketch.c#L77
